@@ -153,7 +153,9 @@ theorem portable_table_ok :
     expectedKeys.all (fun k => Gen.portableTable.any fun r => keyOf r == k) = true ∧
     expectedKeys.all (fun k => Gen.aliasTable.any fun a => (a.be, a.n, a.signed, a.isFloat) == k) = true := by decide
 
-/-! ### decision points: the condition, the error kind and the error position at each refusal are the source's -/
+/-! ### decision points: the condition and the error kind at each refusal are the source's; the error position too where it is
+the position of a *content* error (`BadAlign`, `InvalidData`: C19) — the position attached to an `InsufficientSize` is not part of
+any property and is compared by the correspondence check only where a projection includes it -/
 theorem guard_checkAlignMin (al mn : Nat) (s : Slice) :
     checkAlignMin al mn s =
       if Gen.gCheckAlign_cond (s.addr % al) then .err ⟨Gen.gCheckAlign_kind, Gen.gCheckAlign_pos (s.addr % al)⟩
@@ -165,26 +167,26 @@ theorem guard_vecValidate (d : Dict) (l : LenTy) (s : Slice) (len slots : Nat) (
     (hs : vecSlots d l s.len = .ok slots) :
     (vecD d l).validateU s =
       if Gen.gVecValidate_cond len (min slots l.max) (Gen.vecDataOffset l.size d.align) then
-        .err ⟨Gen.gVecValidate_kind, Gen.gVecValidate_pos len (min slots l.max) (Gen.vecDataOffset l.size d.align)⟩
+        .err ⟨Gen.gVecValidate_kind, max l.size d.align⟩
       else if d.ssize = 0 then .ok () else vecElems d (max l.size d.align) s len 0 := by
-  simp [vecD, hr, hs, Gen.gVecValidate_cond, Gen.gVecValidate_kind, Gen.gVecValidate_pos, Gen.vecDataOffset, max_eq]
+  simp [vecD, hr, hs, Gen.gVecValidate_cond, Gen.gVecValidate_kind]
 
 theorem guard_strValidate (l : LenTy) (s : Slice) (len : Nat) (hr : l.readU s = .ok len) (hn : ¬ s.len < l.size)
     (h : Gen.gStrValidate_cond len (min (floorMul (s.len - l.size) l.align) l.max) (Gen.strDataOffset l.size) = true) :
     (strD l).validateU s =
-      .err ⟨Gen.gStrValidate_kind, Gen.gStrValidate_pos len (min (floorMul (s.len - l.size) l.align) l.max) (Gen.strDataOffset l.size)⟩ := by
+      .err ⟨Gen.gStrValidate_kind, l.size⟩ := by
   have hc : min (floorMul (s.len - l.size) l.align) l.max < len := by
     simpa [Gen.gStrValidate_cond] using h
-  simp [strD, hr, hn, hc, Gen.gStrValidate_kind, Gen.gStrValidate_pos, Gen.strDataOffset]
+  simp [strD, hr, hn, hc, Gen.gStrValidate_kind]
 
 theorem guard_vecFromArray (et : Ty) (l : LenTy) (xs : List Bytes) (s : Slice) (b0 : Bytes) (slots : Nat)
     (hb0 : writeAt s.bytes 0 (encLenTy l 0) = .ok b0) (hs : vecSlots et.dict l s.len = .ok slots) :
     emplaceU (.vec et l) (.vecArr xs) s =
       if Gen.gVecFromArray_cond (min slots l.max) xs.length then
-        .ok ⟨b0, .error ⟨Gen.gVecFromArray_kind, Gen.gVecFromArray_pos (min slots l.max) xs.length⟩⟩
+        .ok ⟨b0, .error ⟨Gen.gVecFromArray_kind, 0⟩⟩
       else (vecWriteElems et.dict.ssize (max l.size et.dict.align) xs 0 b0).bind fun b1 =>
         (writeAt b1 0 (encLenTy l xs.length)).bind fun b2 => .ok (EO.ok b2) := by
-  simp [emplaceU, hb0, hs, EO.err, Gen.gVecFromArray_cond, Gen.gVecFromArray_kind, Gen.gVecFromArray_pos]
+  simp [emplaceU, hb0, hs, EO.err, Gen.gVecFromArray_cond, Gen.gVecFromArray_kind]
 
 theorem guard_flexSlotAlign (d : Dict) (l : LenTy) (os f pos : Nat) (data : Slice)
     (h : Gen.gFlexSlotAlign_cond (data.addr % Gen.flexAlign l.align d.align) pos = true) :
@@ -198,7 +200,7 @@ theorem guard_flexSlot (d : Dict) (l : LenTy) (os f pos next : Nat) (data : Slic
     (Gen.gFlexBadOffset_cond (decide (next = l.max)) os next pos = true →
       flexValidate d l os (f + 1) pos data = .err ⟨Gen.gFlexBadOffset_kind, Gen.gFlexBadOffset_pos (decide (next = l.max)) os next pos⟩) ∧
     (Gen.gFlexBadOffset_cond (decide (next = l.max)) os next pos = false → Gen.gFlexShort_cond (decide (next = l.max)) os next data.len pos = true →
-      flexValidate d l os (f + 1) pos data = .err ⟨Gen.gFlexShort_kind, Gen.gFlexShort_pos (decide (next = l.max)) os next data.len pos⟩) ∧
+      flexValidate d l os (f + 1) pos data = .err ⟨Gen.gFlexShort_kind, pos + os⟩) ∧
     (Gen.gFlexBadOffset_cond (decide (next = l.max)) os next pos = false → Gen.gFlexShort_cond (decide (next = l.max)) os next data.len pos = false →
       os ≤ data.len ∧ (next ≠ l.max → os ≤ next ∧ next ≤ data.len)) := by
   refine ⟨?_, ?_, ?_⟩
@@ -214,7 +216,7 @@ theorem guard_flexSlot (d : Dict) (l : LenTy) (os f pos next : Nat) (data : Slic
       · exact fun hh => hh.1 h
       · exact fun hh => h hh.2
     simp only [Gen.gFlexShort_cond] at h2
-    simp [hal, hc, hr, hn, hnb, h2, Gen.gFlexShort_kind, Gen.gFlexShort_pos]
+    simp [hal, hc, hr, hn, hnb, h2, Gen.gFlexShort_kind]
   · intro h1 h2
     simp only [Gen.gFlexBadOffset_cond, Bool.and_eq_false_iff, Bool.not_eq_false', decide_eq_true_eq, decide_eq_false_iff_not] at h1
     simp only [Gen.gFlexShort_cond, Bool.or_eq_false_iff, Bool.and_eq_false_iff, Bool.not_eq_false', decide_eq_true_eq, decide_eq_false_iff_not] at h2
@@ -228,10 +230,10 @@ theorem guard_flexSlot (d : Dict) (l : LenTy) (os f pos next : Nat) (data : Slic
 theorem guard_flexFillRoom (it : Ty) (l : LenTy) (i : Init) (is : List Init) (pos : Nat) (ls : Option Nat) (whole : Bytes) (base : Nat)
     (h : Gen.gFlexFillRoom_cond (whole.length - pos) (Gen.flexOffsetSize l.size it.dict.align) pos = true) :
     flexFill it l (i :: is) pos ls whole base =
-      flexFinish l ls (.error ⟨Gen.gFlexFillRoom_kind, Gen.gFlexFillRoom_pos (whole.length - pos) (Gen.flexOffsetSize l.size it.dict.align) pos⟩) whole := by
+      flexFinish l ls (.error ⟨Gen.gFlexFillRoom_kind, pos⟩) whole := by
   simp only [Gen.gFlexFillRoom_cond, Gen.flexOffsetSize, max_eq, decide_eq_true_eq] at h
   rw [flexFill_cons]
-  simp [h, Gen.gFlexFillRoom_kind, Gen.gFlexFillRoom_pos]
+  simp [h, Gen.gFlexFillRoom_kind]
 
 /-- the offset written for a filled item is legal iff the source's test says so; otherwise the source's error -/
 theorem guard_flexFillSeal (it : Ty) (l : LenTy) (i : Init) (is : List Init) (pos : Nat) (ls : Option Nat) (whole : Bytes) (base : Nat) (o : EO) (z : Nat)
@@ -241,13 +243,13 @@ theorem guard_flexFillSeal (it : Ty) (l : LenTy) (i : Init) (is : List Init) (po
     (hz : it.dict.size ⟨base + pos + max l.size it.dict.align, o.bytes⟩ = .ok z)
     (h : Gen.gFlexFillSeal_cond (max l.size it.dict.align + Gen.flexFillItem z (max l.align it.dict.align)) l.max pos = false) :
     flexFill it l (i :: is) pos ls whole base =
-      flexFinish l ls (.error ⟨Gen.gFlexFillSeal_kind, Gen.gFlexFillSeal_pos (max l.size it.dict.align + Gen.flexFillItem z (max l.align it.dict.align)) l.max pos⟩)
+      flexFinish l ls (.error ⟨Gen.gFlexFillSeal_kind, pos⟩)
         (whole.take (pos + max l.size it.dict.align) ++ o.bytes) := by
   have h' : ¬ max l.size it.dict.align + ceilMul z (max l.align it.dict.align) < l.max := by
     simp only [Gen.gFlexFillSeal_cond, Gen.flexFillItem] at h
     exact of_decide_eq_false h
   rw [flexFill_cons]
-  simp [hroom, hck, ho, hres, hz, h', Gen.gFlexFillSeal_kind, Gen.gFlexFillSeal_pos, Gen.flexFillItem, ceilMul_eq]
+  simp [hroom, hck, ho, hres, hz, h', Gen.gFlexFillSeal_kind]
 
 theorem guard_flexPushSeal (it : Ty) (l : LenTy) (f pos : Nat) (data : Slice) (z : Nat)
     (hr : readSlot l data pos = .ok (.ok l.max)) (hmax : l.max ≠ 0) (hsplit : max l.size it.dict.align ≤ data.len)
@@ -257,10 +259,9 @@ theorem guard_flexPushSeal (it : Ty) (l : LenTy) (f pos : Nat) (data : Slice) (z
           (pos + (max l.size it.dict.align + Gen.flexPushSeal z (max l.align it.dict.align))) then
         .ok (.ok ⟨pos + (max l.size it.dict.align + Gen.flexPushSeal z (max l.align it.dict.align)),
           some (pos, max l.size it.dict.align + Gen.flexPushSeal z (max l.align it.dict.align))⟩)
-      else .ok (.error ⟨Gen.gFlexPushSeal_kind, Gen.gFlexPushSeal_pos (max l.size it.dict.align + Gen.flexPushSeal z (max l.align it.dict.align)) l.max
-          (pos + (max l.size it.dict.align + Gen.flexPushSeal z (max l.align it.dict.align)))⟩) := by
+      else .ok (.error ⟨Gen.gFlexPushSeal_kind, pos + (max l.size it.dict.align + Gen.flexPushSeal z (max l.align it.dict.align))⟩) := by
   by_cases hc : max l.size it.dict.align + ceilMul z (max l.align it.dict.align) < l.max <;>
-    simp [pushWalk, hr, hmax, Slice.splitAt, hsplit, hv, hz, hc, Gen.gFlexPushSeal_cond, Gen.gFlexPushSeal_kind, Gen.gFlexPushSeal_pos,
+    simp [pushWalk, hr, hmax, Slice.splitAt, hsplit, hv, hz, hc, Gen.gFlexPushSeal_cond, Gen.gFlexPushSeal_kind,
       Gen.flexPushSeal, ceilMul_eq]
 
 theorem guards_untranslatable_none : (Gen.gCheckAlign_untranslatable || Gen.gCheckMin_untranslatable || Gen.gVecValidate_untranslatable ||
